@@ -670,6 +670,22 @@ Lemma slice_ok_lens : forall h h' s, length h' = length h ->
   (forall a, length (arr_of h' a) = length (arr_of h a)) -> slice_ok h s -> slice_ok h' s.
 Proof. intros h h' s H1 H2. apply slice_ok_ext; [exact H1|apply H2]. Qed.
 
+(* the same header with another length (nil stays nil) *)
+Definition relen (v : val) (n : nat) : val :=
+  match v with VSl s => VSl (Slice (s_arr s) (s_off s) n (s_cap s)) | _ => v end.
+
+Definition wlen (g : gopb) : nat := match g_ws g with Some wl => length wl | None => O end.
+
+(* the value returned for the constraint [g] built over the arguments [vl], [vw] *)
+Definition pb_val (vl vw : val) (g : gopb) : val :=
+  VStruct [relen vl (length (g_lits g)); relen vw (wlen g); VInt (g_atleast g)].
+
+Lemma relen_same : forall h v ls, int_slice h v ls -> relen v (length ls) = v.
+Proof.
+  intros h v ls [(-> & ->)|(s & -> & Hok & Hrd)]; [reflexivity|].
+  pose proof (length_sl_read h s Hok) as H. rewrite Hrd in H. destruct s as [a o len c]. cbn in H. subst len. reflexivity.
+Qed.
+
 (* everything that is true of a call of GtEq that does not panic, weights nil or non-empty *)
 Lemma GtEq_total : forall h vl vw ls ws n,
   int_slice h vl ls -> int_slice h vw ws -> disjoint_vals vl vw ->
@@ -687,7 +703,8 @@ Lemma GtEq_total : forall h vl vw ls ws n,
        outside_same h h' s) /\
     (forall s, vw = VSl s -> exists wl, g_ws (gt_eq ls ws n) = Some wl /\
        sl_read h' s = wl ++ repeat (last ws 0) (length ws - length wl) /\
-       outside_same h h' s).
+       outside_same h h' s) /\
+    v = pb_val vl vw (gt_eq ls ws n).
 Proof.
   intros h vl vw ls ws n Hl Hw Hdis [->|(Hws & Hlen)].
   - (* nil weights: nothing happens *)
@@ -695,11 +712,12 @@ Proof.
     exists (VStruct [vl; VNil; VInt n]), h.
     split; [enter; apply (runs_exec go_funs 5); [reflexivity|discriminate]|].
     split; [cbn [readback map gopb_of_rval gt_eq]; rewrite (int_slice_rl _ _ _ Hl); reflexivity|].
-    split; [reflexivity|]. split; [reflexivity|]. split; [reflexivity|]. split.
+    split; [reflexivity|]. split; [reflexivity|]. split; [reflexivity|]. split; [|split].
     + intros s ->. apply int_slice_sl in Hl. destruct Hl as (Hok & Hrd).
       cbn [gt_eq g_lits]. rewrite Nat.sub_diag. cbn [repeat]. rewrite app_nil_r.
       split; [exact Hrd|]. split; reflexivity.
     + intros s Hs. discriminate.
+    + unfold pb_val. cbn [gt_eq g_lits g_atleast relen]. rewrite (relen_same h vl ls Hl). reflexivity.
   - destruct Hw as [(-> & ->)|(sw & -> & Hokw & Hrdw)]; [congruence|].
     destruct Hl as [(-> & ->)|(sl & -> & Hokl & Hrdl)].
     { destruct ws; [congruence|discriminate]. }
@@ -720,10 +738,11 @@ Proof.
       rewrite Hrl, Hrw. rewrite !firstn_mid by reflexivity. reflexivity. }
     split; [exact Hh'|]. split.
     { intros a H1 H2. apply Hfr; [apply (H1 sl eq_refl)|apply (H2 sw eq_refl)]. }
-    split; [exact Hlens|]. split.
+    split; [exact Hlens|]. split; [|split].
     + intros s Hs. inversion Hs. subst s. rewrite Hll. split; [exact Hrl|exact Hol].
     + intros s Hs. inversion Hs. subst s. exists W. rewrite Hlw.
       split; [reflexivity|split; [exact Hrw|exact How]].
+    + reflexivity.
 Qed.
 
 Theorem GtEq_refines : forall h vl vw ls ws n,
@@ -769,7 +788,7 @@ Theorem GtEq_caller_after : forall h sl sw ls ws n,
 Proof.
   intros h sl sw ls ws n Hl Hw Hdis Hws Hlen.
   destruct (GtEq_total h (VSl sl) (VSl sw) ls ws n Hl Hw Hdis (or_intror (conj Hws Hlen)))
-    as (v & h' & Hrun & Hg & Hh' & Hfr & Hlens & Hcl & Hcw).
+    as (v & h' & Hrun & Hg & Hh' & Hfr & Hlens & Hcl & Hcw & _).
   destruct (run_to_fuel _ _ _ _ _ Hrun) as (f & Hf).
   destruct (Hcl sl eq_refl) as (A1 & A2). destruct (Hcw sw eq_refl) as (wl & B1 & B2 & B3).
   exists f, v, h', wl.
@@ -809,3 +828,383 @@ Theorem GtEq_panics : forall h vl vw ls ws n,
   int_slice h vl ls -> int_slice h vw ws -> ws <> [] -> length ls <> length ws ->
   exists fuel, run go_funs fuel "GtEq" [vl; vw; VInt n] h = OPanic.
 Proof. intros. apply run_to_fuel. eapply GtEq_panic_run; eassumption. Qed.
+
+(* ------------------------------------------------------------------ LtEq *)
+
+Lemma skipn_nth_cons : forall (l : list Z) j d, (j < length l)%nat ->
+  skipn j l = nth j l d :: skipn (S j) l.
+Proof.
+  induction l as [|x l IH]; intros j d H; cbn [length] in H; [lia|].
+  destruct j as [|j]; [reflexivity|]. cbn [skipn nth]. apply IH. lia.
+Qed.
+
+Lemma nth_PM : forall (P M Q : list Z) j d, (j < length M)%nat ->
+  nth (length P + j) (P ++ M ++ Q) d = nth j M d.
+Proof.
+  intros P M Q j d H. rewrite app_nth2 by lia. replace (length P + j - length P)%nat with j by lia.
+  apply app_nth1. exact H.
+Qed.
+
+Ltac rdg H1 H2 :=
+  repeat (gocbn;
+    first [ rewrite idx_in by lia | rewrite sub_in by lia | rewrite Nat2Z.id
+          | rewrite arr_of_heap_write_same by lia
+          | rewrite arr_of_heap_write_other by congruence
+          | rewrite H1 | rewrite H2
+          | rewrite write_PD1 by lia | rewrite nth_PD by lia | rewrite nth_PM by lia
+          | progress unfold sl_read
+          | progress unfold sub_slice
+          | rewrite read_PDx by lia
+          | rewrite leb_in by lia ]); gocbn; unfold set_local; gocbn.
+
+Definition lt_body : stmt :=
+  SSeq (SSetIdx (EVar "lits") (EVar "i") (ENeg (EIdx (EVar "lits") (EVar "i"))))
+       (SSet "sum" (EBin Add (EVar "sum") (EIdx (EVar "weights") (EVar "i")))).
+
+Lemma src_LtEq_shape : src_LtEq = FDef ["lits"; "weights"; "n"]
+  (SSeq (SSet "sum" (EInt 0))
+  (SSeq (SRange "i" "_" (EVar "lits") lt_body)
+  (SSeq (SSet "n" (EBin Sub (EVar "sum") (EVar "n")))
+  (SSeq (SCall "$1" "GtEq" [(EVar "lits"); (EVar "weights"); (EVar "n")])
+  (SReturn (EVar "$1")))))).
+Proof. reflexivity. Qed.
+
+Section LtEqLoop.
+Variables (h : heap) (al ol cl : nat) (PL QL ls : list Z) (n : Z).
+Hypothesis Hal : (al < length h)%nat.
+Hypothesis HPL : length PL = ol.
+Hypothesis HAl : arr_of h al = PL ++ ls ++ QL.
+
+Definition lt_sl : slice := Slice al ol (length ls) cl.
+
+(* the array of lits after [j] turns *)
+Definition lt_arr (j : nat) : list Z := PL ++ map Z.opp (firstn j ls) ++ skipn j ls ++ QL.
+
+Definition lt_heap (j : nat) (hp : heap) : Prop :=
+  length hp = length h /\ arr_of hp al = lt_arr j /\ forall a, a <> al -> arr_of hp a = arr_of h a.
+
+Definition lt_loc (vw : val) (ws : list Z) (j : nat) : env :=
+  [("lits", VSl lt_sl); ("weights", vw); ("n", VInt n); ("sum", VInt (zsum (firstn j ws)))].
+
+Definition lt_I (vw : val) (ws : list Z) (j : nat) (st : state) : Prop :=
+  (locals st = lt_loc vw ws j \/ exists z, locals st = lt_loc vw ws j ++ [("i", VInt z)]) /\ lt_heap j (hp st).
+
+Lemma lt_arr_step : forall j, (j < length ls)%nat ->
+  lt_arr j = PL ++ map Z.opp (firstn j ls) ++ nth j ls 0 :: skipn (S j) ls ++ QL /\
+  lt_arr (S j) = PL ++ map Z.opp (firstn j ls) ++ (- nth j ls 0) :: skipn (S j) ls ++ QL.
+Proof.
+  intros j Hj. unfold lt_arr. split.
+  - rewrite (skipn_nth_cons ls j 0 Hj). reflexivity.
+  - rewrite (firstn_S_nth ls j 0 Hj), map_app. cbn [map]. rewrite <- !app_assoc. reflexivity.
+Qed.
+
+Lemma lt_I_0 : forall vw ws, lt_I vw ws O (St (lt_loc vw ws O) h).
+Proof.
+  intros vw ws. split; [left; reflexivity|]. cbn [hp]. unfold lt_heap, lt_arr. cbn [firstn map skipn app].
+  split; [reflexivity|]. split; [exact HAl|]. intros a _. reflexivity.
+Qed.
+
+(* the first statement of the body: lits[j] changes sign *)
+Lemma lt_heap_step : forall j hp0, (j < length ls)%nat -> lt_heap j hp0 ->
+  lt_heap (S j) (heap_write hp0 al (ol + j) [- nth j ls 0]).
+Proof.
+  intros j hp0 Hj (H1 & H2 & H3). destruct (lt_arr_step j Hj) as (E1 & E2). unfold lt_heap.
+  rewrite length_heap_write, arr_of_heap_write_same by lia. rewrite H2, E1, E2.
+  split; [exact H1|]. split.
+  - apply write_PD1. rewrite map_length, firstn_length_le by lia. lia.
+  - intros a Ha. rewrite arr_of_heap_write_other by congruence. apply H3. exact Ha.
+Qed.
+
+Lemma lt_step : forall vw ws j st0, int_slice h vw ws -> (forall s, vw = VSl s -> s_arr s <> al) ->
+  (j < length ls)%nat -> (j < length ws)%nat -> lt_I vw ws j st0 ->
+  exists st1, runs go_funs lt_body (range_pre "i" "_" (Some lt_sl) j st0) (ONormal st1) /\ lt_I vw ws (S j) st1.
+Proof.
+  intros vw ws j [loc hp0] Hw Hdis Hj Hjw (Hloc & Hhp). cbn [locals hp] in *.
+  destruct Hw as [(-> & ->)|(sw & -> & Hokw & Hrdw)]; [cbn [length] in Hjw; lia|].
+  specialize (Hdis sw eq_refl).
+  destruct (slice_split h sw Hokw) as (PW & QW & HAw & HPW). rewrite Hrdw in HAw.
+  pose proof (length_sl_read h sw Hokw) as Hlw. rewrite Hrdw in Hlw.
+  destruct sw as [aw ow lenw cw]. cbn [s_arr s_off s_len s_cap] in *. subst ow lenw.
+  pose proof Hhp as (H1 & H2 & H3). destruct (lt_arr_step j Hj) as (E1 & E2). rewrite E1 in H2.
+  assert (HAw0 : arr_of hp0 aw = PW ++ ws ++ QW) by (rewrite H3 by exact Hdis; exact HAw).
+  exists (St (lt_loc (VSl (Slice aw (length PW) (length ws) cw)) ws (S j) ++ [("i", VInt (Z.of_nat j))]) (heap_write hp0 al (ol + j) [- nth j ls 0])).
+  split; [|split; [right; eexists; reflexivity|apply lt_heap_step; assumption]].
+  assert (HD1 : length (map Z.opp (firstn j ls)) = j) by (rewrite map_length, firstn_length_le; lia).
+  pose proof (zsum_firstn_S ws j Hjw) as Hz.
+  destruct Hloc as [->|(z & ->)]; apply (runs_exec go_funs 2); try discriminate;
+    unfold lt_body, lt_loc, lt_sl; rewrite Hz; cbn [range_pre String.eqb Ascii.eqb Bool.eqb andb];
+    rdg H2 HAw0; reflexivity.
+Qed.
+
+(* weights too short: lits[j] is still negated, then weights[j] panics *)
+Lemma lt_step_panic : forall vw ws j st0, int_slice h vw ws ->
+  (j < length ls)%nat -> j = length ws -> lt_I vw ws j st0 ->
+  runs go_funs lt_body (range_pre "i" "_" (Some lt_sl) j st0) OPanic.
+Proof.
+  intros vw ws j [loc hp0] Hw Hj Hjw (Hloc & Hhp). cbn [locals hp] in *.
+  pose proof Hhp as (H1 & H2 & H3). destruct (lt_arr_step j Hj) as (E1 & E2). rewrite E1 in H2.
+  assert (HD1 : length (map Z.opp (firstn j ls)) = j) by (rewrite map_length, firstn_length_le; lia).
+  destruct Hw as [(-> & ->)|(sw & -> & Hokw & Hrdw)].
+  - destruct Hloc as [->|(z & ->)]; apply (runs_exec go_funs 2); try discriminate;
+      unfold lt_body, lt_loc, lt_sl; cbn [range_pre String.eqb Ascii.eqb Bool.eqb andb];
+      rdg H2 H2; reflexivity.
+  - pose proof (length_sl_read h sw Hokw) as Hlw. rewrite Hrdw in Hlw.
+    destruct sw as [aw ow lenw cw]. cbn [s_arr s_off s_len s_cap] in *. subst lenw.
+    destruct Hloc as [->|(z & ->)]; apply (runs_exec go_funs 2); try discriminate;
+      unfold lt_body, lt_loc, lt_sl; cbn [range_pre String.eqb Ascii.eqb Bool.eqb andb];
+      rdg H2 H2; rewrite idx_out by lia; reflexivity.
+Qed.
+
+End LtEqLoop.
+
+Lemma lt_arr_all : forall PL QL ls, lt_arr PL QL ls (length ls) = PL ++ map Z.opp ls ++ QL.
+Proof. intros. unfold lt_arr. rewrite firstn_all, skipn_all. reflexivity. Qed.
+
+Lemma lt_arr_length : forall PL QL ls j, length (lt_arr PL QL ls j) = length (PL ++ ls ++ QL).
+Proof.
+  intros PL QL ls j. unfold lt_arr. rewrite !app_length, map_length.
+  rewrite <- (firstn_skipn j ls) at 3. rewrite app_length. lia.
+Qed.
+
+Lemma lt_heap_lens : forall h al PL QL ls j hp, arr_of h al = PL ++ ls ++ QL ->
+  lt_heap h al PL QL ls j hp -> forall a, length (arr_of hp a) = length (arr_of h a).
+Proof.
+  intros h al PL QL ls j hp HAl (H1 & H2 & H3) a. destruct (Nat.eq_dec a al) as [->|Hne].
+  - rewrite H2, HAl. apply lt_arr_length.
+  - rewrite H3 by exact Hne. reflexivity.
+Qed.
+
+Definition lt_tail : stmt :=
+  SSeq (SSet "n" (EBin Sub (EVar "sum") (EVar "n")))
+  (SSeq (SCall "$1" "GtEq" [(EVar "lits"); (EVar "weights"); (EVar "n")])
+  (SReturn (EVar "$1"))).
+
+Lemma LtEq_tail : forall vl vw n sum loc h1 v h',
+  (loc = [("lits", vl); ("weights", vw); ("n", VInt n); ("sum", VInt sum)] \/
+   exists z, loc = [("lits", vl); ("weights", vw); ("n", VInt n); ("sum", VInt sum)] ++ [("i", VInt z)]) ->
+  run_to go_funs "GtEq" [vl; vw; VInt (sum - n)] h1 (OReturn v h') ->
+  runs go_funs lt_tail (St loc h1) (OReturn v h').
+Proof.
+  intros vl vw n sum loc h1 v h' Hloc Hrun. unfold lt_tail.
+  destruct Hloc as [->|(z & ->)].
+  - eapply runs_seq; [apply (runs_exec go_funs 1); [reflexivity|discriminate]|].
+    eapply runs_seq; [eapply runs_call_run; [reflexivity|exact Hrun]|].
+    apply (runs_exec go_funs 1); [reflexivity|discriminate].
+  - eapply runs_seq; [apply (runs_exec go_funs 1); [reflexivity|discriminate]|].
+    eapply runs_seq; [eapply runs_call_run; [reflexivity|exact Hrun]|].
+    apply (runs_exec go_funs 1); [reflexivity|discriminate].
+Qed.
+
+Lemma LtEq_tail_panic : forall vl vw n sum loc h1,
+  (loc = [("lits", vl); ("weights", vw); ("n", VInt n); ("sum", VInt sum)] \/
+   exists z, loc = [("lits", vl); ("weights", vw); ("n", VInt n); ("sum", VInt sum)] ++ [("i", VInt z)]) ->
+  run_to go_funs "GtEq" [vl; vw; VInt (sum - n)] h1 OPanic ->
+  runs go_funs lt_tail (St loc h1) OPanic.
+Proof.
+  intros vl vw n sum loc h1 Hloc Hrun. unfold lt_tail.
+  destruct Hloc as [->|(z & ->)].
+  - eapply runs_seq; [apply (runs_exec go_funs 1); [reflexivity|discriminate]|].
+    apply runs_seq_abrupt; [|exact I]. eapply runs_call_run_panic; [reflexivity|exact Hrun].
+  - eapply runs_seq; [apply (runs_exec go_funs 1); [reflexivity|discriminate]|].
+    apply runs_seq_abrupt; [|exact I]. eapply runs_call_run_panic; [reflexivity|exact Hrun].
+Qed.
+
+(* the first half of LtEq on a non-nil lits with at least as many weights:
+   every literal negated in place, [sum] the sum of the first len(lits) weights *)
+Lemma LtEq_first_half : forall h sl vw ws n,
+  slice_ok h sl -> int_slice h vw ws -> (forall s, vw = VSl s -> s_arr s <> s_arr sl) ->
+  (s_len sl <= length ws)%nat ->
+  exists loc h1,
+    runs go_funs (SRange "i" "_" (EVar "lits") lt_body)
+      (St [("lits", VSl sl); ("weights", vw); ("n", VInt n); ("sum", VInt 0)] h) (ONormal (St loc h1)) /\
+    (loc = [("lits", VSl sl); ("weights", vw); ("n", VInt n); ("sum", VInt (zsum (firstn (s_len sl) ws)))] \/
+     exists z, loc = [("lits", VSl sl); ("weights", vw); ("n", VInt n);
+                      ("sum", VInt (zsum (firstn (s_len sl) ws)))] ++ [("i", VInt z)]) /\
+    length h1 = length h /\
+    (forall a, a <> s_arr sl -> arr_of h1 a = arr_of h a) /\
+    (forall a, length (arr_of h1 a) = length (arr_of h a)) /\
+    sl_read h1 sl = map Z.opp (sl_read h sl).
+Proof.
+  intros h sl vw ws n Hokl Hw Hdis Hle.
+  destruct (slice_split h sl Hokl) as (PL & QL & HAl & HPL).
+  pose proof (length_sl_read h sl Hokl) as Hll. pose proof Hokl as (Hal & _).
+  remember (sl_read h sl) as ls eqn:Els.
+  destruct sl as [al ol lenl cl]. cbn [s_arr s_off s_len s_cap] in *. subst lenl.
+  destruct (runs_range_inv go_funs "i" "_" (EVar "lits") lt_body
+              (St (lt_loc al ol cl ls n vw ws O) h) (lt_sl al ol cl ls)
+              (lt_I h al ol cl PL QL ls n vw ws)) as (st' & Hrun & HI).
+  - reflexivity.
+  - apply lt_I_0. exact HAl.
+  - intros j st0 Hj HIj. cbn [s_len lt_sl] in Hj. apply (lt_step h al ol cl PL QL ls n Hal HPL); try assumption. lia.
+  - destruct st' as [loc h1]. destruct HI as (Hloc & Hhp). cbn [s_len lt_sl locals hp] in *.
+    exists loc, h1. split; [exact Hrun|]. split; [exact Hloc|].
+    pose proof Hhp as (H1 & H2 & H3).
+    split; [exact H1|]. split; [exact H3|]. split; [apply (lt_heap_lens _ _ _ _ _ _ _ HAl Hhp)|].
+    unfold sl_read. cbn [s_arr s_off s_len]. rewrite H2, lt_arr_all.
+    apply read_mid; [lia|]. rewrite map_length. reflexivity.
+Qed.
+
+(* everything that is true of a call of LtEq that does not panic, weights nil or non-empty *)
+Lemma LtEq_total : forall h vl vw ls ws n,
+  int_slice h vl ls -> int_slice h vw ws -> disjoint_vals vl vw ->
+  length ls = length ws -> (vw = VNil \/ ws <> []) ->
+  exists v h',
+    run_to go_funs "LtEq" [vl; vw; VInt n] h (OReturn v h') /\
+    gopb_of_rval (readback h' v) = Some (lt_eq ls ws n) /\
+    length h' = length h /\
+    (forall a, (forall s, vl = VSl s -> a <> s_arr s) -> (forall s, vw = VSl s -> a <> s_arr s) ->
+               arr_of h' a = arr_of h a) /\
+    (forall a, length (arr_of h' a) = length (arr_of h a)) /\
+    (forall s, vl = VSl s ->
+       sl_read h' s = g_lits (lt_eq ls ws n) ++
+                      repeat (last (map Z.opp ls) 0) (length ls - length (g_lits (lt_eq ls ws n)))) /\
+    (forall s, vw = VSl s -> exists wl, g_ws (lt_eq ls ws n) = Some wl /\
+       sl_read h' s = wl ++ repeat (last ws 0) (length ws - length wl)) /\
+    v = pb_val vl vw (lt_eq ls ws n).
+Proof.
+  intros h vl vw ls ws n Hl Hw Hdis Hlen Hc.
+  destruct Hl as [(-> & ->)|(sl & -> & Hokl & Hrdl)].
+  - (* nil lits: the loop does nothing *)
+    assert (ws = []) by (destruct ws; [reflexivity|discriminate]). subst ws.
+    destruct (GtEq_total h VNil vw [] [] (0 - n)) as (v & h' & Hrun & Hg & Hh' & Hfr & Hlens & Hcl & Hcw & Hv).
+    { left. split; reflexivity. } { exact Hw. } { exact I. }
+    { destruct Hc as [Hc|Hc]; [left; exact Hc|congruence]. }
+    exists v, h'. split.
+    { enter. eapply runs_seq; [apply (runs_exec go_funs 1); [reflexivity|discriminate]|].
+      eapply runs_seq; [apply (runs_exec go_funs 1); [reflexivity|discriminate]|].
+      apply (LtEq_tail VNil vw n 0); [left; reflexivity|exact Hrun]. }
+    split; [exact Hg|]. split; [exact Hh'|]. split; [exact Hfr|]. split; [exact Hlens|].
+    split; [intros s Hs; discriminate|]. split; [|exact Hv].
+    intros s Hs. destruct (Hcw s Hs) as (wl & A & B & _). exists wl. split; assumption.
+  - assert (Hdis' : forall s, vw = VSl s -> s_arr s <> s_arr sl).
+    { intros s ->. cbn [disjoint_vals] in Hdis. congruence. }
+    pose proof (length_sl_read h sl Hokl) as Hll. rewrite Hrdl in Hll.
+    destruct (LtEq_first_half h sl vw ws n Hokl Hw Hdis' ltac:(lia))
+      as (loc & h1 & Hrun1 & Hloc & Hh1 & Hfr1 & Hlens1 & Hrd1).
+    rewrite Hrdl in Hrd1.
+    assert (Hl1 : int_slice h1 (VSl sl) (map Z.opp ls)).
+    { right. exists sl. split; [reflexivity|]. split; [|exact Hrd1].
+      apply (slice_ok_lens h h1 sl Hh1 Hlens1 Hokl). }
+    assert (Hw1 : int_slice h1 vw ws).
+    { destruct Hw as [(-> & ->)|(sw & -> & Hokw & Hrdw)]; [left; split; reflexivity|].
+      right. exists sw. split; [reflexivity|]. split; [apply (slice_ok_lens h h1 sw Hh1 Hlens1 Hokw)|].
+      rewrite <- Hrdw. apply sl_read_ext. apply Hfr1. apply Hdis'. reflexivity. }
+    destruct (GtEq_total h1 (VSl sl) vw (map Z.opp ls) ws (zsum (firstn (length ls) ws) - n) Hl1 Hw1 Hdis)
+      as (v & h' & Hrun & Hg & Hh' & Hfr & Hlens & Hcl & Hcw & Hv).
+    { destruct Hc as [Hc|Hc]; [left; exact Hc|right; split; [exact Hc|rewrite map_length; exact Hlen]]. }
+    exists v, h'. split.
+    { enter. eapply runs_seq; [apply (runs_exec go_funs 1); [reflexivity|discriminate]|].
+      eapply runs_seq; [exact Hrun1|].
+      rewrite <- Hll in Hloc.
+      apply (LtEq_tail (VSl sl) vw n (zsum (firstn (length ls) ws))); [exact Hloc|exact Hrun]. }
+    split; [exact Hg|]. split; [congruence|]. split.
+    { intros a Ha1 Ha2. rewrite Hfr by assumption. apply Hfr1. apply (Ha1 sl eq_refl). }
+    split; [intros a; rewrite Hlens; apply Hlens1|].
+    unfold lt_eq. rewrite map_length in Hcl. split; [|split].
+    + intros s Hs. apply (Hcl s Hs).
+    + intros s Hs. destruct (Hcw s Hs) as (wl & A & B & _). exists wl. split; assumption.
+    + exact Hv.
+Qed.
+
+Theorem LtEq_refines : forall h vl vw ls ws n,
+  int_slice h vl ls -> int_slice h vw ws -> disjoint_vals vl vw ->
+  length ls = length ws -> (vw = VNil \/ ws <> []) ->
+  exists fuel v h',
+    run go_funs fuel "LtEq" [vl; vw; VInt n] h = OReturn v h' /\
+    gopb_of_rval (readback h' v) = Some (lt_eq ls ws n) /\
+    length h' = length h /\
+    (forall a, (forall s, vl = VSl s -> a <> s_arr s) -> (forall s, vw = VSl s -> a <> s_arr s) ->
+               arr_of h' a = arr_of h a).
+Proof.
+  intros h vl vw ls ws n Hl Hw Hdis Hlen Hc.
+  destruct (LtEq_total h vl vw ls ws n Hl Hw Hdis Hlen Hc) as (v & h' & Hrun & Hg & Hh' & Hfr & _).
+  destruct (run_to_fuel _ _ _ _ _ Hrun) as (f & Hf). exists f, v, h'. repeat split; assumption.
+Qed.
+
+(* what the caller's slices hold after LtEq: as after GtEq on the negated literals *)
+Theorem LtEq_caller_after : forall h sl sw ls ws n,
+  int_slice h (VSl sl) ls -> int_slice h (VSl sw) ws -> s_arr sl <> s_arr sw ->
+  ws <> [] -> length ls = length ws ->
+  exists fuel v h' wl,
+    run go_funs fuel "LtEq" [VSl sl; VSl sw; VInt n] h = OReturn v h' /\
+    g_ws (lt_eq ls ws n) = Some wl /\
+    sl_read h' sl = g_lits (lt_eq ls ws n) ++
+                    repeat (last (map Z.opp ls) 0) (length ls - length (g_lits (lt_eq ls ws n))) /\
+    sl_read h' sw = wl ++ repeat (last ws 0) (length ws - length wl).
+Proof.
+  intros h sl sw ls ws n Hl Hw Hdis Hws Hlen.
+  destruct (LtEq_total h (VSl sl) (VSl sw) ls ws n Hl Hw Hdis Hlen (or_intror Hws))
+    as (v & h' & Hrun & Hg & Hh' & Hfr & Hlens & Hcl & Hcw & _).
+  destruct (run_to_fuel _ _ _ _ _ Hrun) as (f & Hf).
+  destruct (Hcw sw eq_refl) as (wl & B1 & B2).
+  exists f, v, h', wl. split; [exact Hf|split; [exact B1|split; [exact (Hcl sl eq_refl)|exact B2]]].
+Qed.
+
+(* no literals, weights non-nil of length 0: the arguments come back as they
+   are with AtLeast = 0 - n, Weights a non-nil empty slice (the model says nil) *)
+Theorem LtEq_empty_weights_observation : forall h vl sw n,
+  (vl = VNil \/ exists s, vl = VSl s /\ s_len s = O) -> s_len sw = O ->
+  exists fuel, run go_funs fuel "LtEq" [vl; VSl sw; VInt n] h
+               = OReturn (VStruct [vl; VSl sw; VInt (0 - n)]) h.
+Proof.
+  intros h vl [a o len c] n Hvl H. cbn [s_len] in H. subst len.
+  apply run_to_fuel. enter.
+  destruct Hvl as [->|([a' o' len' c'] & -> & H')].
+  - apply (runs_exec go_funs 10); [reflexivity|discriminate].
+  - cbn [s_len] in H'. subst len'. apply (runs_exec go_funs 10); [reflexivity|discriminate].
+Qed.
+
+Lemma LtEq_panic_run : forall h vl vw ls ws n,
+  int_slice h vl ls -> int_slice h vw ws -> disjoint_vals vl vw -> length ls <> length ws ->
+  run_to go_funs "LtEq" [vl; vw; VInt n] h OPanic.
+Proof.
+  intros h vl vw ls ws n Hl Hw Hdis Hlen.
+  destruct Hl as [(-> & ->)|(sl & -> & Hokl & Hrdl)].
+  - (* nil lits, some weights: GtEq panics *)
+    assert (Hws : ws <> []) by (destruct ws; [cbn [length] in Hlen; congruence|discriminate]).
+    enter. eapply runs_seq; [apply (runs_exec go_funs 1); [reflexivity|discriminate]|].
+    eapply runs_seq; [apply (runs_exec go_funs 1); [reflexivity|discriminate]|].
+    apply (LtEq_tail_panic VNil vw n 0); [left; reflexivity|].
+    apply (GtEq_panic_run h VNil vw [] ws); try assumption. left. split; reflexivity.
+  - assert (Hdis' : forall s, vw = VSl s -> s_arr s <> s_arr sl).
+    { intros s ->. cbn [disjoint_vals] in Hdis. congruence. }
+    pose proof (length_sl_read h sl Hokl) as Hll. rewrite Hrdl in Hll.
+    destruct (Nat.lt_ge_cases (length ws) (length ls)) as [Hlt|Hge].
+    + (* fewer weights than lits: weights[len(weights)] panics inside the loop *)
+      destruct (slice_split h sl Hokl) as (PL & QL & HAl & HPL). rewrite Hrdl in HAl.
+      pose proof Hokl as (Hal & _).
+      destruct sl as [al ol lenl cl]. cbn [s_arr s_off s_len s_cap] in *. subst lenl.
+      enter. eapply runs_seq; [apply (runs_exec go_funs 1); [reflexivity|discriminate]|].
+      apply runs_seq_abrupt; [|exact I].
+      apply (runs_range_inv_abrupt go_funs "i" "_" (EVar "lits") lt_body
+               (St (lt_loc al ol cl ls n vw ws O) h) (lt_sl al ol cl ls)
+               (lt_I h al ol cl PL QL ls n vw ws) (length ws) OPanic).
+      * reflexivity.
+      * apply lt_I_0. exact HAl.
+      * intros j st0 Hj HIj. apply (lt_step h al ol cl PL QL ls n Hal HPL); try assumption. lia.
+      * intros st0 HIj. apply (lt_step_panic h al ol cl PL QL ls n Hal HPL vw ws); try assumption. reflexivity.
+      * exact I.
+      * exact Hlt.
+    + (* more weights than lits: the loop ends, GtEq panics *)
+      destruct (LtEq_first_half h sl vw ws n Hokl Hw Hdis' ltac:(lia))
+        as (loc & h1 & Hrun1 & Hloc & Hh1 & Hfr1 & Hlens1 & Hrd1).
+      rewrite Hrdl in Hrd1.
+      assert (Hl1 : int_slice h1 (VSl sl) (map Z.opp ls)).
+      { right. exists sl. split; [reflexivity|]. split; [|exact Hrd1].
+        apply (slice_ok_lens h h1 sl Hh1 Hlens1 Hokl). }
+      assert (Hw1 : int_slice h1 vw ws).
+      { destruct Hw as [(-> & ->)|(sw & -> & Hokw & Hrdw)]; [left; split; reflexivity|].
+        right. exists sw. split; [reflexivity|]. split; [apply (slice_ok_lens h h1 sw Hh1 Hlens1 Hokw)|].
+        rewrite <- Hrdw. apply sl_read_ext. apply Hfr1. apply Hdis'. reflexivity. }
+      enter. eapply runs_seq; [apply (runs_exec go_funs 1); [reflexivity|discriminate]|].
+      eapply runs_seq; [exact Hrun1|].
+      apply (LtEq_tail_panic (VSl sl) vw n (zsum (firstn (s_len sl) ws))); [exact Hloc|].
+      apply (GtEq_panic_run h1 (VSl sl) vw (map Z.opp ls) ws); try assumption.
+      * destruct ws; [cbn [length] in *; lia|discriminate].
+      * rewrite map_length. exact Hlen.
+Qed.
+
+Theorem LtEq_panics : forall h vl vw ls ws n,
+  int_slice h vl ls -> int_slice h vw ws -> disjoint_vals vl vw -> length ls <> length ws ->
+  exists fuel, run go_funs fuel "LtEq" [vl; vw; VInt n] h = OPanic.
+Proof. intros. apply run_to_fuel. eapply LtEq_panic_run; eassumption. Qed.
